@@ -579,3 +579,67 @@ def all_messages(prog):
         if d is not None and id(d) in paths:
             res.append((paths[id(d)][0], paths[id(d)][1], m))
     return res
+
+
+# --------------------------------------------------------------------------------------
+# a third file on top: app imports main and (when there is one) lib, which main imports too
+# --------------------------------------------------------------------------------------
+
+def _typed_nodes(t, acc, seen):
+    if id(t) in seen:
+        return
+    seen.add(id(t))
+    k = t["k"]
+    if k in ("alias", "enum", "msg") and t.get("name"):
+        acc.append(t)
+    if k == "alias":
+        _typed_nodes(t["to"], acc, seen)
+    elif k == "array":
+        _typed_nodes(t["elem"], acc, seen)
+    elif k == "msg":
+        for f in t["fields"]:
+            _typed_nodes(f["t"], acc, seen)
+
+
+def wrap_diamond(prog, rng, app="app", top="App"):
+    """A program whose main file `app` imports the old main file and the file the old main imports (a diamond
+    of imports when there is one), with a message holding the old top message and, when the intended type tree
+    knows one, a type declared at the top of the imported file.  The intended type tree is extended likewise."""
+    p = dict(prog)
+    files = dict(prog["files"])
+    old_main = prog["main"]
+    others = [f for f in prog["order"] if f != old_main]
+    decls = [{"d": "proto", "name": app}]
+    first_lib = rng.random() < 0.5
+    imps = [{"d": "import", "file": old_main, "as": None}] + [{"d": "import", "file": f, "as": None} for f in others]
+    if first_lib:
+        imps.reverse()
+    decls += imps
+    body = [{"d": "field", "name": "t", "num": 3, "t": tref([old_main, prog["top"]])}]
+    fields = [{"num": 3, "name": "t", "t": prog.get("rtype")}]
+    if others and prog.get("rtype") is not None:
+        lib = others[0]
+        tops = {d["name"]: d for d in files[lib] if d["d"] in ("alias", "enum", "message")}
+        nodes = []
+        _typed_nodes(prog["rtype"], nodes, set())
+        cands = [n for n in nodes if n["name"] in tops and
+                 (n["k"] != "msg" or n.get("_decl") is tops[n["name"]])]
+        # nested messages may carry a top-level name by accident: identity of the declaration decides for them;
+        # aliases / enums are matched by name and kind
+        cands = [n for n in cands if {"alias": "alias", "enum": "enum", "msg": "message"}[n["k"]] == tops[n["name"]]["d"]]
+        if cands:
+            n = rng.choice(cands)
+            body.append({"d": "field", "name": "y", "num": 1, "t": tref([lib, n["name"]])})
+            fields.append({"num": 1, "name": "y", "t": n})
+    decl = {"d": "message", "name": top, "ext": False, "body": body}
+    decls.append(decl)
+    files[app] = decls
+    p["files"] = files
+    p["order"] = list(prog["order"]) + [app]
+    p["main"] = app
+    p["top"] = top
+    if prog.get("rtype") is not None:
+        p["rtype"] = {"k": "msg", "name": top, "ext": False, "fields": fields, "_decl": decl}
+    p["nbits"] = None
+    p.pop("_texts", None)
+    return p
